@@ -158,6 +158,34 @@ func (g *G) formatArg(verb byte, flags string, a Value) Str {
 		}
 		return S(fmt.Sprintf("%"+flags+string(verb), v.C))
 	}
+	// %s / %q / %x of a byte slice: the bytes themselves
+	if verb == 's' || verb == 'q' {
+		isBytes := false
+		if sl, ok := under(x.T).(*types.Slice); ok {
+			if b, ok := under(sl.Elem()).(*types.Basic); ok && b.Kind() == types.Uint8 {
+				isBytes = true
+			}
+		}
+		if isBytes {
+			var str Str
+			switch v := x.V.(type) {
+			case *Blob:
+				str = v.ToStr(g)
+			case Slice:
+				str = blobFromSlice(g, v).ToStr(g)
+			case nil:
+				str = S("")
+			default:
+				isBytes = false
+			}
+			if isBytes {
+				if verb == 'q' {
+					return g.quoteStr(str)
+				}
+				return str
+			}
+		}
+	}
 	// composite / pointer values: deterministic but not byte-faithful
 	g.model("fmt: %v of composite values rendered as an opaque token")
 	return Str{Segs: []Seg{{Q: "fmtv(" + showVal(x.V) + ")"}}}
@@ -166,6 +194,11 @@ func (g *G) formatArg(verb byte, flags string, a Value) Str {
 func (g *G) quoteStr(s Str) Str {
 	if s.IsConc() {
 		return S(strconv.Quote(s.C))
+	}
+	if _, ok := s.Bytes(); ok {
+		// concrete text and symbolic bytes: Go quoting byte by byte (differs from JSON quoting
+		// for control characters and bytes >= 0x7f)
+		return strFromBytes(g.goQuoteBytes(s))
 	}
 	return Str{Segs: []Seg{{Q: "quote(" + s.String() + ")"}}}
 }
